@@ -204,7 +204,12 @@ func OpenBucket(urlStr string, bucketName string, mode OpenMode) (b *Bucket, err
 	exists, bucketCopy := registerBucket(bucket)
 	// someone else beat registered the bucket in the registry, that's OK we'll close ours
 	if exists {
-		bucket.Close(ctx)
+		// The registered bucket keeps the store. Close() would leave this call's own database connection open
+		// (it is not the registered store, so there is no reference to release): shut it down here.
+		bucket.mutex.Lock()
+		bucket.closed = true
+		bucket.mutex.Unlock()
+		bucket.shutDownStore()
 	}
 	// only schedule expiration if bucket is not new. The bucket is in the registry by now, so a write through another
 	// handle may already have armed the timer (or the timer may be running): take the expiry manager's lock.
